@@ -26,7 +26,8 @@ from sa.selftest import driver  # noqa: E402
 
 
 def one(args):
-    sid, sdir, root, props, base = args
+    sid, sdir, root, props, base = args[:5]
+    keep = len(args) > 5 and args[5]
     from sa.cli import run_property
     from sa.model import Project, AnalysisError
 
@@ -58,7 +59,15 @@ def one(args):
                 res['fired'][p] = sorted('%s %s' % (r_, k) for (r_, k) in newk)[:5]
             if rc == 2:
                 res['errors'][p] = [ln for ln in buf.getvalue().splitlines() if ln.startswith('ANALYSIS-ERROR')][:2]
-        if target in res['fired']:
+        if keep:
+            # behaviour-preserving change: any report is a false alarm, exit 2 is fail-closed noise
+            if res['fired']:
+                res['status'] = 'FALSE-ALARM(%s)' % ','.join(sorted(res['fired']))
+            elif res['errors']:
+                res['status'] = 'exit2(%s)' % ','.join(sorted(res['errors']))
+            else:
+                res['status'] = 'silent'
+        elif target in res['fired']:
             res['status'] = 'caught'
         elif res['fired']:
             res['status'] = 'caught-by-other(%s)' % ','.join(res['fired'])
@@ -77,6 +86,7 @@ def main():
     ap.add_argument('--root', default='/repo')
     ap.add_argument('--only', default=None)
     ap.add_argument('--json', default=None)
+    ap.add_argument('--keep', action='store_true', help='the changes are behaviour-preserving: expect silence from every property')
     a = ap.parse_args()
     ids = sorted(d for d in os.listdir(a.dir) if os.path.isfile(os.path.join(a.dir, d, 'patch.diff')))
     if a.only:
@@ -84,7 +94,7 @@ def main():
         ids = [i for i in ids if any(k in i for k in keys)]
     props = driver.implemented_props()
     base = driver.baseline_keys(a.root, props)
-    work = [(i, os.path.join(a.dir, i), a.root, props, base) for i in ids]
+    work = [(i, os.path.join(a.dir, i), a.root, props, base, a.keep) for i in ids]
     with ProcessPoolExecutor(max_workers=16) as ex:
         results = list(ex.map(one, work))
     missed = 0
@@ -94,7 +104,12 @@ def main():
         print('%-28s %-4s %-28s %s' % (r['id'], r['property'], r['status'], '; '.join('%s: %s' % (p, v[0][:110]) for p, v in r['fired'].items())))
         for p, e in r['errors'].items():
             print('      %s %s' % (p, e[:1]))
-    print('seeded: %d changes, %d caught by their property, %d not' % (len(results), len(results) - missed, missed))
+    if a.keep:
+        fa = sum(1 for r in results if r['status'].startswith('FALSE-ALARM'))
+        e2 = sum(1 for r in results if r['status'].startswith('exit2'))
+        print('preserving: %d changes, %d silent, %d exit 2 (fail-closed), %d FALSE ALARMS' % (len(results), len(results) - fa - e2, e2, fa))
+    else:
+        print('seeded: %d changes, %d caught by their property, %d not' % (len(results), len(results) - missed, missed))
     if a.json:
         json.dump(results, open(a.json, 'w'), indent=1)
 
